@@ -32,6 +32,20 @@ VERUS_NOTE = ("Trusted: Verus 0.2026.09.13 + Z3; vstd's specifications of Vec/Ve
               "are assumptions about unverified code); extraction rules R1-R9 of DESIGN.md 3.2 as counted under rewrites_applied. ")
 
 PROPS.update({
+    "C03": {
+        "title": "Every transaction ends in bounded time, whatever the peer and the link do",
+        "verus": [("send", ["O-C03-"])],
+        "level": "proof",
+        "technique": "deductive verification (Verus/Z3) of an 'always armed' invariant over the sender's step functions",
+        "design_ref": "DESIGN.md 4/C03",
+        "level_text": "Partial, proof of a NECESSARY condition on the SENDER: alive_inv = an active transaction always has a PDU to offer to the transport (has_pdu_to_send, whose "
+                      "exact meaning is proved) or, in the two waiting sub-states, a running positive-acknowledgement or inactivity timer - the only things besides a PDU from the peer "
+                      "that wake the transaction loop; and the Finished sub-state exists only with the ACK(Finished) pending. The invariant is preserved by send_pdu, process_pdu, "
+                      "handle_timeout, cancel, handle_fault (on a non-terminated transaction) and re-established by resume. Together with C17 (a running timer reaches its limit "
+                      "after exactly limit x timeout and then the configured handler runs) this excludes a sender that waits forever for a silent peer. NOT decided: the bound "
+                      "itself as a number, the receiver, the daemon loop and the claim as a whole (liveness over schedules).",
+        "level_note": VERUS_NOTE,
+    },
     "C04": {
         "title": "A completed delivery is final",
         "verus": [("recv", ["O-C04-"])],
@@ -298,7 +312,6 @@ PROPS.update({
 NOT_APPLICABLE = {
     "C01": "end-to-end equality of delivered and source file composes two entities, the link and two filesystems over a whole history; per-function contracts give only its lemmas (proved under C09, C14, C07); no contract within reach of Verus/Kani expresses the composition",
     "C02": "liveness of a two-party protocol under fault schedules; Verus and Kani prove safety of one call, not eventual completion",
-    "C03": "bounded-time termination for every peer/link behaviour is liveness plus real time; only the timer loop's own termination is a contract (proved under C17)",
     "C10": "cancel handshakes at both entities under every interleaving and loss pattern: schedules and a peer; the single-entity fragments live in process_pdu (async/iterator-heavy, outside the verifiers' subset)",
     "C11": "isolation of concurrent tokio tasks and routing inside async fn forward_pdu: Kani has no async/thread support, Verus has no model of tokio channels; nothing here is a function contract",
 }
